@@ -11,7 +11,8 @@ META = dict(
            "the real min / ball projections; one contact with a two-dimensional friction law.  Clauses: normal percussion >= 0; friction percussion in the "
            "Coulomb disk of the normal percussion it was projected with; AT A FIXED POINT of the projection (hypothesis P = update(P)): complementarity with "
            "the gap (position-level stages) or the Newton-restituted gap rate (velocity-level stages), disk feasibility, and for sliding contacts "
-           "maximal dissipation (friction percussion antiparallel to the slip with magnitude mu P_N).  Outside: that the fixed-point loops reach a fixed "
+           "maximal dissipation (friction percussion antiparallel to the slip with magnitude mu P_N).  Moreau.step (real method, LU stub) on two point masses in sphere-sphere contact: xi_N0, xi_F0, W_N are the restituted "
+           "gap rate / slip velocity / force direction at the step's midpoint configuration.  Outside: that the fixed-point loops reach a fixed "
            "point within tolerance; DualStormerVerlet (prox is a closure inside _step); penetration 'beyond solver tolerance'; the kinetic-energy clause.",
     assumptions=["dt > 0, prox parameters > 0, mu > 0", "fixed-point hypothesis for the complementarity clauses"],
     trusted_base=[],
@@ -143,6 +144,41 @@ def moreau(h, body="PM", fixed_point=False, seed=0):
         h.le("Moreau: friction in the Coulomb disk of the projected normal percussion", PF @ PF, (mu * PN[0]) * (mu * PN[0]))
 
 
+def moreau_xi(h, seed=0):
+    """the real Moreau.step on two point masses in sphere-sphere contact (normal depends on q): the quantities the projection makes complementary
+    to the percussions are the Newton-restituted gap rate / slip velocity, all evaluated with the kinematics of the step's midpoint configuration"""
+    from cardillo import System
+    from cardillo.discrete import PointMass
+    from cardillo.contacts import Sphere2Sphere
+    from cardillo.solver import Moreau, SolverOptions
+    eN = h.nonneg("eN")
+    pm1 = PointMass(1.0, q0=np.array([0.0, 0.0, 0.0]), u0=np.zeros(3), name="pm1")
+    pm2 = PointMass(2.0, q0=np.array([0.5, 0.25, 0.0]), u0=np.zeros(3), name="pm2")
+    con = Sphere2Sphere(pm1, pm2, 0.25, 0.25, 0.0, e_N=eN, e_F=0.0, name="con")       # frictionless: the normal direction is the subject
+    sysm = System()
+    sysm.add(pm1, pm2, con)
+    lib.assemble(sysm)
+    with h.capture():
+        sol = Moreau(sysm, 1.0, 0.125, options=SolverOptions(fixed_point_max_iter=1, continue_with_unconverged=True))
+    tn, qn, un = h.real("t"), h.vec("q", sysm.nq), h.vec("u", sysm.nu)
+    dt = h.pos("dt")
+    sol.dt, sol.tn, sol.qn, sol.un = dt, tn, qn, un
+    if h.sym:
+        from symx import shims
+        sysm._M0 = shims.SymMat(np.asarray(sysm._M0.toarray(), dtype=object))
+    sol.xi_N0 = None
+    with h.capture():
+        sol.step()
+    if sol.xi_N0 is None or len(sol.I_N) == 0:
+        from symx.harness import Skip
+        raise Skip("contact not active on this path")
+    tm, qm = sol.tn12, sol.qn12
+    zero = 0 * un
+    h.eq("Moreau: xi_N0 + W_N^T u_{n+1} is the Newton-restituted gap rate at the midpoint configuration",
+         sol.xi_N0, eN * sysm.g_N_dot(tm, qm, un) + sysm.g_N_dot(tm, qm, zero))
+    h.eq("Moreau: W_N is evaluated at the midpoint configuration", np.asarray(sol.W_N.toarray()), np.asarray(sysm.W_N(tm, qm).toarray()))
+
+
 def _q(h, sysm):
     q = h.vec("q", sysm.nq)
     if sysm.nq == 7:
@@ -169,4 +205,5 @@ def cases(tier, seed):
             cs.append(Case(f"Rattle2/{body}/{tag}", rattle, dict(stage=2, body=body, fixed_point=fp, seed=seed), timeout=T, hard=T * 10, max_paths=64))
             cs.append(Case(f"Moreau/{body}/{tag}", moreau, dict(body=body, fixed_point=fp, seed=seed), timeout=T, hard=T * 10, max_paths=64))
         cs.append(Case(f"Rattle2/{body}/inactive", rattle, dict(stage=2, body=body, fixed_point=False, seed=seed, active=False), timeout=T))
+    cs.append(Case("Moreau/step/sphere-sphere/restituted_gap_rate", moreau_xi, dict(seed=seed), timeout=T, hard=T * 25, max_paths=64))
     return cs
